@@ -35,6 +35,11 @@ def diag_of(t):
 INVARIANT = {SIZE(SUB): lin_add(N, num(-1)), SIZE(MAIN): N, SIZE(SUP): lin_add(N, num(-1))}
 
 
+def _pos(n):
+    sp = n.get("sp")
+    return (sp[0], sp[1]) if sp else (0, 0)
+
+
 def run(rep, pdb, tier):
     # ---- the solvers answer for every nonsingular system: their own panics depend on shapes (or an exactly-zero pivot) only
     from .c01 import rule_rejects_only_shapes
@@ -405,6 +410,54 @@ def run(rep, pdb, tier):
                 flen = fi is not None and fi[0] == "call" and str(fi[1]).endswith("Vector<T>::new") and fi[2] == lin_add(N, num(1))
                 ok = one and okf1 and okr and rng and ret and flen
                 det = "f[0]=one:%s f[1]:%s recurrence:%s j in 2..=n:%s returns f[n]:%s f has n+1 entries:%s" % (one, okf1, okr, rng, ret, flen)
+        if not ok and not sets:
+            # the same three-term recurrence on two rolling scalars: prev = one, cur = main[0]*prev; for j in 2..=n { next = main[j-1]*cur - sub[j-2]*sup[j-2]*prev;
+            # prev = cur; cur = next }; result cur (only the last two minors are kept)
+            effs_ = effects(pdb, ctx)
+            asg = [e for e in effs_ if e.kind == "assign" and e.loops and e.target[0] == "var"]
+            if len(asg) == 2:
+                a_first, a_second = sorted(asg, key=lambda e_: _pos(e_.node))
+                prev, cur = a_first.target, a_second.target
+                r = for_range(ctx, a_first.loops[0])
+                if r is not None and a_first.value == cur and a_first.loops == a_second.loops:
+                    j = r[0]
+                    jm1, jm2 = lin_add(j, num(-1)), lin_add(j, num(-2))
+                    nxt = a_second.value
+                    if nxt[0] == "var" and ctx.def_term(nxt) is not None:
+                        nxt = ctx.def_term(nxt)
+
+                    def tree2(t):
+                        if t[0] == "op":
+                            a, b = tree2(t[2]), tree2(t[3])
+                            if t[1] in ("+", "*") and repr(a) > repr(b):
+                                a, b = b, a
+                            return ("op", t[1], a, b)
+                        return t
+                    facs2 = []
+
+                    def fl2(t):
+                        if t[0] == "op" and t[1] == "*":
+                            fl2(t[2])
+                            fl2(t[3])
+                        else:
+                            facs2.append(t)
+                    okr = nxt[0] == "op" and nxt[1] == "-" and tree2(nxt[2]) == tree2(("op", "*", ("idx", MAIN, jm1), cur))
+                    if okr:
+                        fl2(nxt[3])
+                        okr = sorted(facs2, key=repr) == sorted([("idx", SUB, jm2), ("idx", SUP, jm2), prev], key=repr)
+                    # the value of `next` must be formed before prev / cur are shifted
+                    nb_ = ctx.binds.get(a_second.value[1]) if a_second.value[0] == "var" else None
+                    order = nb_ is not None and _pos(nb_.node) < _pos(a_first.node) < _pos(a_second.node)
+                    pb_, cb_ = ctx.binds.get(prev[1]), ctx.binds.get(cur[1])
+                    pi_ = ctx.term(pb_.init) if pb_ is not None and pb_.init is not None else None
+                    ci_ = ctx.term(cb_.init) if cb_ is not None and cb_.init is not None else None
+                    one = pi_ is not None and pi_[0] == "call" and str(pi_[1]).endswith("One::one")
+                    okf1 = ci_ is not None and tree2(ci_) in (tree2(("op", "*", ("idx", MAIN, num(0)), prev)), tree2(("op", "*", ("idx", MAIN, num(0)), pi_)))
+                    rng = r[1] == num(2) and (r[2] == lin_add(N, num(1)) and not r[3] or r[2] == N and r[3]) and not r[4]
+                    tail = dt["body"].get("expr")
+                    ret = tail is not None and ctx.term(tail) == cur
+                    ok = bool(one and okf1 and okr and order and rng and ret)
+                    det = "rolling pair: prev=one:%s cur=main[0]*prev:%s recurrence:%s next formed before the shift:%s j in 2..=n:%s returns cur:%s" % (one, okf1, okr, order, rng, ret)
         rep.add("det-recurrence", rule, ok, dt["body"], det, where=loc(dt["body"]), proof=True)
     # ---- operators
     n_ops = 0
